@@ -173,6 +173,19 @@ class C11(Check):
             return js
         return dec if not recs else js
 
+    def fixed_cases(self, tier):
+        # a null-namespace type and a namespaced type share their unqualified name; an unqualified reference inside the
+        # namespace denotes the namespaced one (records, enums, fixed; reference before / after both definitions; nested)
+        for kind, extra in (("enum", {"symbols": ["A", "B"]}), ("fixed", {"size": 2}), ("record", {"fields": []})):
+            top = dict({"type": kind, "name": "X"}, **extra)
+            inner = dict({"type": kind, "name": "X", "namespace": "ns"}, **(dict(extra, symbols=["B", "A"]) if kind == "enum" else dict(extra, size=3) if kind == "fixed" else {"fields": [{"name": "q", "type": "int"}]}))
+            yield {"schema": {"type": "record", "name": "Top", "fields": [
+                {"name": "plain", "type": top},
+                {"name": "holder", "type": {"type": "record", "name": "ns.Holder", "fields": [{"name": "own", "type": inner}, {"name": "again", "type": "X"}, {"name": "arr", "type": {"type": "array", "items": ["null", "X"]}},
+                                                                                             {"name": "other", "type": ".X" if False else "ns.X"}]}},
+                {"name": "outside", "type": "X"}]}, "mutation": None}
+        yield {"schema": [{"type": "record", "name": "X", "fields": []}, {"type": "record", "name": "deep.ns.Y", "fields": [{"name": "x", "type": {"type": "fixed", "name": "X", "size": 1}}, {"name": "y", "type": {"type": "map", "values": "X"}}]}], "mutation": None}
+
     # ------------------------------------------------------------------ mutations
     def mutate(self, d, kind, js, ir, table):
         js = copy.deepcopy(js)
